@@ -1,0 +1,210 @@
+//go:build verif
+
+package mp4
+
+// Property C02 (EncodeSW writes exactly Size() bytes), agent c02b.
+
+// ---------------------------------------------------------------- vmhd
+//@ func (*VmhdBox).EncodeSW
+//@   loop 1 invariant 0 <= i && i <= 3 && adv(sw, 14 + 2*i)
+
+// ---------------------------------------------------------------- sidx
+// FINDING: DecodeSidxSR (sidx.go:72-88) accepts any version byte; for Version >= 2 Size() adds 8*Version bytes while EncodeSW
+// writes the 64-bit layout (8 extra bytes) only. The property holds for Version <= 1 only.
+//@ pred boxOK@SidxBox(b *SidxBox) = b.Version <= 1
+//@ func (*SidxBox).EncodeSW
+//@   loop 1 invariant adv(sw, 32 + 8*int(b.Version) + 12*idx(1))
+
+// ---------------------------------------------------------------- silb
+// silbOff(es, n, base): base plus the encoded size of the first n entries (one addend per entry, in the shape used by Size()).
+// The second invariant of EncodeSW is the inductive lemma "silbOff(n, a+16) == a + silbOff(n, 16)", carried along the loop
+// because the solvers cannot do induction (and kept separate so that each step is a small bit-vector problem).
+//@ spec rec silbOff(es []SilbEntry, n int, base uint64) uint64 = ite(n <= 0, base, silbOff(es, n-1, base) + uint64(len(es[n-1].SchemeIdURI) + 1 + len(es[n-1].Value) + 1 + 1))
+//@ func (*SilbBox).Size
+//@   pure
+//@   ensures result == silbOff(b.Schemes, len(b.Schemes), 16) + 1
+//@   assigns nothing
+//@   loop 1 invariant idx(1) <= len(b.Schemes)
+//@   loop 1 invariant size == silbOff(b.Schemes, idx(1), 16)
+//@ func (*SilbBox).EncodeSW
+//@   loop 1 invariant idx(1) <= len(b.Schemes)
+//@   loop 1 invariant sw.(*bits.FixedSliceWriter).accError == nil ==> old(sw.(*bits.FixedSliceWriter).accError) == nil && uint64(sw.(*bits.FixedSliceWriter).off) == silbOff(b.Schemes, idx(1), uint64(old(sw.(*bits.FixedSliceWriter).off)) + 16)
+//@   loop 1 invariant silbOff(b.Schemes, idx(1), uint64(old(sw.(*bits.FixedSliceWriter).off)) + 16) == uint64(old(sw.(*bits.FixedSliceWriter).off)) + silbOff(b.Schemes, idx(1), 16)
+
+// ---------------------------------------------------------------- ssix
+//@ spec rec ssixOff(ss []SubSegment, n int, base uint64) uint64 = ite(n <= 0, base, ssixOff(ss, n-1, base) + (4 + uint64(len(ss[n-1].Ranges))*4))
+//@ func (*SsixBox).Size
+//@   pure
+//@   ensures result == ssixOff(b.SubSegments, len(b.SubSegments), 16)
+//@   assigns nothing
+//@   loop 1 invariant idx(1) <= len(b.SubSegments)
+//@   loop 1 invariant size == ssixOff(b.SubSegments, idx(1), 16)
+//@ func (*SsixBox).EncodeSW
+//@   loop 1 invariant idx(1) <= len(b.SubSegments)
+//@   loop 1 invariant sw.(*bits.FixedSliceWriter).accError == nil ==> old(sw.(*bits.FixedSliceWriter).accError) == nil && uint64(sw.(*bits.FixedSliceWriter).off) == ssixOff(b.SubSegments, idx(1), uint64(old(sw.(*bits.FixedSliceWriter).off)) + 16)
+//@   loop 1 invariant ssixOff(b.SubSegments, idx(1), uint64(old(sw.(*bits.FixedSliceWriter).off)) + 16) == uint64(old(sw.(*bits.FixedSliceWriter).off)) + ssixOff(b.SubSegments, idx(1), 16)
+//@   loop 2 invariant idx(1) < len(b.SubSegments) && idx(2) <= len(ss.Ranges) && len(ss.Ranges) == len(b.SubSegments[idx(1)].Ranges)
+//@   loop 2 invariant sw.(*bits.FixedSliceWriter).accError == nil ==> old(sw.(*bits.FixedSliceWriter).accError) == nil && uint64(sw.(*bits.FixedSliceWriter).off) == ssixOff(b.SubSegments, idx(1), uint64(old(sw.(*bits.FixedSliceWriter).off)) + 16) + (4 + uint64(idx(2))*4)
+//@   loop 2 invariant ssixOff(b.SubSegments, idx(1), uint64(old(sw.(*bits.FixedSliceWriter).off)) + 16) == uint64(old(sw.(*bits.FixedSliceWriter).off)) + ssixOff(b.SubSegments, idx(1), 16)
+
+// ---------------------------------------------------------------- stco / stss / stts: 32-bit entry count
+// Size() goes through uint32(len(..)); the decoders create the slices with make([]uint32, entryCount) for a uint32 entryCount
+// (stco.go:48, stss.go:44, stts.go:47-48), so the length fits 32 bits.
+//@ pred boxOK@StcoBox(b *StcoBox) = len(b.ChunkOffset) < 1<<32
+//@ func (*StcoBox).EncodeSW
+//@   loop 1 invariant adv(sw, 16 + 4*idx(1))
+//@ pred boxOK@StssBox(b *StssBox) = len(b.SampleNumber) < 1<<32
+//@ func (*StssBox).EncodeSW
+//@   loop 1 invariant adv(sw, 16 + 4*idx(1))
+//@ pred boxOK@SttsBox(b *SttsBox) = len(b.SampleCount) < 1<<32
+//@ func (*SttsBox).EncodeSW
+//@   loop 1 invariant adv(sw, 16 + 8*idx(1))
+
+// ---------------------------------------------------------------- stsc
+//@ func (*StscBox).EncodeSW
+//@   loop 1 invariant adv(sw, 16 + 12*idx(1))
+
+// ---------------------------------------------------------------- stsz
+// DecodeStszSR (stsz.go:40-56): a uniform size > 0 leaves SampleSize nil, otherwise SampleSize = make([]uint32, SampleNumber).
+//@ pred boxOK@StszBox(b *StszBox) = (b.SampleUniformSize > 0 ==> len(b.SampleSize) == 0) && (b.SampleUniformSize == 0 ==> len(b.SampleSize) == int(b.SampleNumber))
+//@ func (*StszBox).EncodeSW
+//@   loop 1 invariant adv(sw, 20 + 4*idx(1))
+
+// ---------------------------------------------------------------- subs
+// FINDING: DecodeSubsSR (subs.go:71-99) accepts any version byte and, like EncodeSW, uses 32-bit subsample sizes only for
+// version == 1 (16-bit otherwise), while Size() uses 16-bit sizes only for version == 0. For Version >= 2 Size() is 2 bytes per
+// subsample larger than what EncodeSW writes. The property holds for Version <= 1 only.
+//@ pred boxOK@SubsBox(b *SubsBox) = b.Version <= 1
+//@ spec rec subsOff(es []SubsEntry, n int, ver byte, base int) int = ite(n <= 0, base, subsOff(es, n-1, ver, base) + ite(ver == 0, 6 + len(es[n-1].SubSamples)*8, 6 + len(es[n-1].SubSamples)*10))
+//@ func (*SubsBox).Size
+//@   pure
+//@   ensures result == uint64(subsOff(b.Entries, len(b.Entries), b.Version, 16))
+//@   assigns nothing
+//@   loop 1 invariant idx(1) <= len(b.Entries)
+//@   loop 1 invariant size == subsOff(b.Entries, idx(1), b.Version, 16)
+//@ func (*SubsBox).EncodeSW
+//@   loop 1 invariant idx(1) <= len(b.Entries)
+//@   loop 1 invariant sw.(*bits.FixedSliceWriter).accError == nil ==> old(sw.(*bits.FixedSliceWriter).accError) == nil && sw.(*bits.FixedSliceWriter).off == subsOff(b.Entries, idx(1), b.Version, old(sw.(*bits.FixedSliceWriter).off) + 16)
+//@   loop 1 invariant subsOff(b.Entries, idx(1), b.Version, old(sw.(*bits.FixedSliceWriter).off) + 16) == old(sw.(*bits.FixedSliceWriter).off) + subsOff(b.Entries, idx(1), b.Version, 16)
+//@   loop 2 invariant idx(1) < len(b.Entries) && idx(2) <= len(e.SubSamples) && len(e.SubSamples) == len(b.Entries[idx(1)].SubSamples)
+//@   loop 2 invariant sw.(*bits.FixedSliceWriter).accError == nil ==> old(sw.(*bits.FixedSliceWriter).accError) == nil && sw.(*bits.FixedSliceWriter).off == subsOff(b.Entries, idx(1), b.Version, old(sw.(*bits.FixedSliceWriter).off) + 16) + ite(b.Version == 0, 6 + idx(2)*8, 6 + idx(2)*10)
+//@   loop 2 invariant subsOff(b.Entries, idx(1), b.Version, old(sw.(*bits.FixedSliceWriter).off) + 16) == old(sw.(*bits.FixedSliceWriter).off) + subsOff(b.Entries, idx(1), b.Version, 16)
+
+// ---------------------------------------------------------------- tenc
+// DecodeTencSR (tenc.go:55) sets DefaultKID = UUID(sr.ReadBytes(16)): 16 bytes whenever the decoder succeeds.
+// FINDING (constructor path): InitProtect (crypto.go:350-360) stores the caller's kid without checking len(kid) == 16; Size()
+// counts 16 bytes for the KID, EncodeSW writes len(DefaultKID) bytes.
+//@ pred boxOK@TencBox(b *TencBox) = len(b.DefaultKID) == 16
+
+// ---------------------------------------------------------------- tfdt
+// FINDING: DecodeTfdtSR / DecodeTfdt (tfdt.go:25-57) accept any version byte; Size() = 16 + 4*Version, EncodeSW writes 16 bytes
+// for Version == 0 and 20 bytes otherwise. The property holds for Version <= 1 only (CreateTfdt and SetBaseMediaDecodeTime,
+// tfdt.go:60-86, only produce 0 or 1).
+//@ pred boxOK@TfdtBox(b *TfdtBox) = b.Version <= 1
+
+// ---------------------------------------------------------------- tfra
+// DecodeTfraSR (tfra.go:51-53) masks the three length-size fields with 0x3; Entries gets exactly nrEntries (a uint32) elements
+// (tfra.go:60-102). The entry size is a per-box constant that depends on Version and the three length sizes; the loop invariant
+// is split by (Version == 1, sum of the length sizes) so that each case has a literal entry size (no symbolic multiplication).
+// (the bounds "<= 3" are written as explicit disjunctions: this gives the solver the atoms to split on)
+//@ pred le3(x byte) = x == 0 || x == 1 || x == 2 || x == 3
+//@ pred boxOK@TfraBox(b *TfraBox) = le3(b.LengthSizeOfTrafNum) && le3(b.LengthSizeOfTrunNum) && le3(b.LengthSizeOfSampleNum) && len(b.Entries) < 1<<32
+//@ pred tfraK(b *TfraBox, v1 bool, s int) = (b.Version == 1) == v1 && int(b.LengthSizeOfTrafNum)+int(b.LengthSizeOfTrunNum)+int(b.LengthSizeOfSampleNum) == s
+//@ func (*TfraBox).EncodeSW
+//@   loop 1 invariant tfraK(b, true, 0) ==> adv(sw, 24 + 19*idx(1))
+//@   loop 1 invariant tfraK(b, true, 1) ==> adv(sw, 24 + 20*idx(1))
+//@   loop 1 invariant tfraK(b, true, 2) ==> adv(sw, 24 + 21*idx(1))
+//@   loop 1 invariant tfraK(b, true, 3) ==> adv(sw, 24 + 22*idx(1))
+//@   loop 1 invariant tfraK(b, true, 4) ==> adv(sw, 24 + 23*idx(1))
+//@   loop 1 invariant tfraK(b, true, 5) ==> adv(sw, 24 + 24*idx(1))
+//@   loop 1 invariant tfraK(b, true, 6) ==> adv(sw, 24 + 25*idx(1))
+//@   loop 1 invariant tfraK(b, true, 7) ==> adv(sw, 24 + 26*idx(1))
+//@   loop 1 invariant tfraK(b, true, 8) ==> adv(sw, 24 + 27*idx(1))
+//@   loop 1 invariant tfraK(b, true, 9) ==> adv(sw, 24 + 28*idx(1))
+//@   loop 1 invariant tfraK(b, false, 0) ==> adv(sw, 24 + 11*idx(1))
+//@   loop 1 invariant tfraK(b, false, 1) ==> adv(sw, 24 + 12*idx(1))
+//@   loop 1 invariant tfraK(b, false, 2) ==> adv(sw, 24 + 13*idx(1))
+//@   loop 1 invariant tfraK(b, false, 3) ==> adv(sw, 24 + 14*idx(1))
+//@   loop 1 invariant tfraK(b, false, 4) ==> adv(sw, 24 + 15*idx(1))
+//@   loop 1 invariant tfraK(b, false, 5) ==> adv(sw, 24 + 16*idx(1))
+//@   loop 1 invariant tfraK(b, false, 6) ==> adv(sw, 24 + 17*idx(1))
+//@   loop 1 invariant tfraK(b, false, 7) ==> adv(sw, 24 + 18*idx(1))
+//@   loop 1 invariant tfraK(b, false, 8) ==> adv(sw, 24 + 19*idx(1))
+//@   loop 1 invariant tfraK(b, false, 9) ==> adv(sw, 24 + 20*idx(1))
+// expectedSize multiplies the entry count by the symbolic entry size; its contract restates the result with a literal entry size
+// per case, so that the multiplier equivalence is proved once, here, and not inside EncodeSW.
+//@ func (*TfraBox).expectedSize
+//@   pure
+//@   assigns nothing
+//@   ensures tfraK(b, true, 0) ==> result == 24 + uint64(entryCount)*19
+//@   ensures tfraK(b, true, 1) ==> result == 24 + uint64(entryCount)*20
+//@   ensures tfraK(b, true, 2) ==> result == 24 + uint64(entryCount)*21
+//@   ensures tfraK(b, true, 3) ==> result == 24 + uint64(entryCount)*22
+//@   ensures tfraK(b, true, 4) ==> result == 24 + uint64(entryCount)*23
+//@   ensures tfraK(b, true, 5) ==> result == 24 + uint64(entryCount)*24
+//@   ensures tfraK(b, true, 6) ==> result == 24 + uint64(entryCount)*25
+//@   ensures tfraK(b, true, 7) ==> result == 24 + uint64(entryCount)*26
+//@   ensures tfraK(b, true, 8) ==> result == 24 + uint64(entryCount)*27
+//@   ensures tfraK(b, true, 9) ==> result == 24 + uint64(entryCount)*28
+//@   ensures tfraK(b, false, 0) ==> result == 24 + uint64(entryCount)*11
+//@   ensures tfraK(b, false, 1) ==> result == 24 + uint64(entryCount)*12
+//@   ensures tfraK(b, false, 2) ==> result == 24 + uint64(entryCount)*13
+//@   ensures tfraK(b, false, 3) ==> result == 24 + uint64(entryCount)*14
+//@   ensures tfraK(b, false, 4) ==> result == 24 + uint64(entryCount)*15
+//@   ensures tfraK(b, false, 5) ==> result == 24 + uint64(entryCount)*16
+//@   ensures tfraK(b, false, 6) ==> result == 24 + uint64(entryCount)*17
+//@   ensures tfraK(b, false, 7) ==> result == 24 + uint64(entryCount)*18
+//@   ensures tfraK(b, false, 8) ==> result == 24 + uint64(entryCount)*19
+//@   ensures tfraK(b, false, 9) ==> result == 24 + uint64(entryCount)*20
+
+// ---------------------------------------------------------------- tkhd
+// FINDING: DecodeTkhdSR (tkhd.go:51-81) accepts any version byte and uses the 64-bit layout only for version == 1, as does
+// Size() (104 for Version == 1, else 92); EncodeSW uses the 32-bit layout only for Version == 0 and writes 104 bytes for every
+// other version. For Version >= 2 EncodeSW writes 104 bytes while Size() is 92. The property holds for Version <= 1 only
+// (CreateTkhd, tkhd.go:31-37, sets Version 0).
+//@ pred boxOK@TkhdBox(b *TkhdBox) = b.Version <= 1
+
+// ---------------------------------------------------------------- tref type boxes (hint, cdsc, ...)
+// DecodeTrefTypeSR (tref.go:96-99) takes Name from the box header, whose name has 4 bytes (hdrOK, established by DecodeHeaderSR).
+//@ pred boxOK@TrefTypeBox(b *TrefTypeBox) = len(b.Name) == 4
+//@ func (*TrefTypeBox).EncodeSW
+//@   loop 1 invariant adv(sw, 8 + 4*idx(1))
+
+// ---------------------------------------------------------------- unknown boxes
+// DecodeUnknownSR (unknown.go:34-36) stores hdr.Name (4 bytes by hdrOK), hdr.Size and the hdr.Size-hdr.Hdrlen payload bytes.
+// FINDING: for a box with a 16-byte header (32-bit size field 1, 64-bit largesize) the decoder keeps size = hdr.Size but EncodeSW
+// always writes an 8-byte header, i.e. size-8 bytes in total. The invariant below is established by the decoder only for
+// hdr.Hdrlen == 8; CreateUnknownBox (unknown.go:29-31) leaves it to the caller.
+//@ pred boxOK@UnknownBox(b *UnknownBox) = len(b.name) == 4 && b.size == 8 + uint64(len(b.notDecoded))
+
+// ---------------------------------------------------------------- mdat
+// mdatOff(ps, n, base): base plus the lengths of the first n data parts.
+//@ spec rec mdatOff(ps [][]byte, n int, base int) int = ite(n <= 0, base, mdatOff(ps, n-1, base) + len(ps[n-1]))
+//@ spec mdatLen(m *MdatBox, base int) int = ite(len(m.DataParts) > 0, mdatOff(m.DataParts, len(m.DataParts), base), base + len(m.Data))
+// The last two ensures are the inductive lemmas "mdatOff(n, h) == h + mdatOff(n, 0)" for the two header sizes, proved along the loop.
+//@ func (*MdatBox).DataLength
+//@   pure
+//@   ensures result == uint64(mdatLen(m, 0))
+//@   ensures mdatLen(m, 8) == 8 + mdatLen(m, 0) && mdatLen(m, 16) == 16 + mdatLen(m, 0)
+//@   assigns nothing
+//@   loop 1 invariant idx(1) <= len(m.DataParts)
+//@   loop 1 invariant dataLength == mdatOff(m.DataParts, idx(1), 0)
+//@   loop 1 invariant mdatOff(m.DataParts, idx(1), 8) == 8 + mdatOff(m.DataParts, idx(1), 0)
+//@   loop 1 invariant mdatOff(m.DataParts, idx(1), 16) == 16 + mdatOff(m.DataParts, idx(1), 0)
+// Size() switches LargeSize on (a side effect) when the payload does not fit a 32-bit size field; in lazy mode (lazyDataSize > 0,
+// DecodeMdatLazily / SetLazyDataSize) the payload is by design not written by EncodeSW. Both are excluded by the invariant:
+// DecodeMdatSR / DecodeMdat (mdat.go:26-42) set lazyDataSize = 0 and LargeSize = (hdr.Hdrlen > 8); with an 8-byte header
+// hdr.Size < 1<<32, so the payload is at most 1<<32 - 1 - 8 bytes. ASSUMPTION: also with a 16-byte header the payload is at most
+// 1<<32 - 1 - 8 bytes (otherwise Size() writes m.LargeSize, which the schema's assigns clause forbids).
+//@ pred boxOK@MdatBox(m *MdatBox) = m.lazyDataSize == 0 && uint64(mdatLen(m, 0)) <= 4294967287
+//@ func (*MdatBox).Size
+//@   pure
+//@   requires boxOK(m)
+//@   ensures result == uint64(mdatLen(m, ite(m.LargeSize, 16, 8)))
+//@   assigns nothing
+//@ func EncodeHeaderWithSizeSW
+//@   inline
+//@ func (*MdatBox).EncodeSW
+//@   loop 1 invariant idx(1) <= len(m.DataParts)
+//@   loop 1 invariant sw.(*bits.FixedSliceWriter).accError == nil ==> old(sw.(*bits.FixedSliceWriter).accError) == nil && sw.(*bits.FixedSliceWriter).off == mdatOff(m.DataParts, idx(1), old(sw.(*bits.FixedSliceWriter).off) + ite(m.LargeSize, 16, 8))
+//@   loop 1 invariant mdatOff(m.DataParts, idx(1), old(sw.(*bits.FixedSliceWriter).off) + ite(m.LargeSize, 16, 8)) == old(sw.(*bits.FixedSliceWriter).off) + mdatOff(m.DataParts, idx(1), ite(m.LargeSize, 16, 8))
